@@ -21,7 +21,8 @@ import launch_lib as L
 THEOREMS = ['C15_key_roundtrip', 'C15_key_line_roundtrip', 'C15_key_print_width', 'C15_key_print_injective',
             'C15_prefixes_of_code', 'C15_handshake', 'C15_no_key_on_mismatch', 'C15_key_only_after_match',
             'C15_success_only_after_match', 'C15_deploy_consent', 'C15_no_consent_no_upload', 'C15_retry_once',
-            'C15_deploy_never_panics', 'C15_traffic_only_after_match', 'C15_both_doers']
+            'C15_deploy_never_panics', 'C15_traffic_only_after_match', 'C15_both_doers',
+            'C15_system_safe', 'C15_system_progress', 'C15_system_terminates']
 
 MARKERS = ['No such file or directory', 'The system cannot find the path specified',
            'is not recognized as an internal or external command']
@@ -749,7 +750,10 @@ def setup_ctx(run):
     if not ctx.cp.endswith(' '):
         ctx.cp += ' '          # the facts line loses the trailing blank of the constant
     ctx.binary_sha = L.sha_file(ctx.binary)
-    ctx.corpus = load_corpus()
+    ctx.corpus = json.loads(json.dumps(load_corpus()).replace('@OWN@', ctx.version))   # corpus scripts name the own version symbolically
+    for c_ in ctx.corpus:
+        if c_.get('kind') == 'script' and c_.get('in_domain'):
+            c_['announced'] = ctx.version
     ctx.gap_ms = 25
     return ctx
 
